@@ -27,7 +27,10 @@ class ModularMixin:
             self.old_locals = dict(frame.locals)
             self.old_ghost = {'g_enc': self.g_enc, 'g_dec': self.g_dec}
             for target in (C.modifies or []):
-                self.havoc(target, frame)
+                if callable(target):
+                    target(self, frame.locals)      # functional summary (a restatement of proved ensures clauses)
+                else:
+                    self.havoc(target, frame)
             # outcome
             conds, alts = [], []
             normal_cond = True
@@ -92,6 +95,18 @@ class ModularMixin:
             base, _, attr = expr.rpartition('.')
             recv = self.spec_eval(ast.parse(base, mode='eval').body)
             self.setattr(recv, attr, self.sym_value(desc, 'havoc_' + attr))
+            return
+        if kind == 'maparr':
+            # maparr:<map expr>:<field path>  -- one per-field array of a symbolic map (e.g. every stream's window)
+            expr, _, path = rest.rpartition(':')
+            ref = self.spec_eval(ast.parse(expr, mode='eval').body)
+            m = self.heap.get(ref)
+            self.counter += 1
+            arr = m.arrays[path]
+            m.arrays[path] = z3.Array('havoc!%d.%s.%s' % (self.counter, m.name, path), arr.domain(), arr.range())
+            if path + '?' in m.arrays:
+                q = m.arrays[path + '?']
+                m.arrays[path + '?'] = z3.Array('havoc!%d.%s.%s?' % (self.counter, m.name, path), q.domain(), q.range())
             return
         ref = self.spec_eval(ast.parse(rest, mode='eval').body)
         m = self.heap.get(ref)
